@@ -362,6 +362,11 @@ func join(a, b context, node parse.Node, nodeName string) context {
 	a.element.attrSplit = a.element.attrSplit || b.element.attrSplit
 	a.attr.split = a.attr.split || b.attr.split
 	a.attr.afterAction = a.attr.afterAction || b.attr.afterAction
+	if a.attr.inherited != b.attr.inherited {
+		// One branch is still in the attribute of the call site, the other has opened an
+		// attribute of its own: the static text in front is not the same even if it reads the same.
+		a.attr.ambiguousValue = true
+	}
 	a.attr.inherited = a.attr.inherited && b.attr.inherited
 	a.element.inherited = a.element.inherited && b.element.inherited
 	// Accumulate the result of context-joining elements and attributes in a, since the
